@@ -161,15 +161,15 @@ Lemma loco2_id_list : forall ids pad, (length ids <= 16)%nat -> length (ids ++ p
   loco2_ids (Z.of_nat (length ids) :: ids ++ pad) = IL_Ok ids.
 Proof.
   intros ids pad H L. unfold loco2_ids. cbn [length]. rewrite L. cbn [Nat.eqb negb nthz nth skipn].
-  rewrite Nat2Z.id. apply Nat.leb_le in H. rewrite H. rewrite firstn_app_exact. reflexivity.
+  rewrite Nat2Z.id. rewrite Nat.min_l by exact H. rewrite firstn_app_exact. reflexivity.
 Qed.
 
-(* more than 16 announced ids: the loop runs past the 17 bytes that were read (IndexError) *)
+(* a count byte above 16: exactly the 16 ids that were read are taken (no exception, nr_of_anchors = 16) *)
 Lemma loco2_id_list_overflow : forall n rest, 16 < n -> length rest = 16%nat ->
-  loco2_ids (n :: rest) = IL_IndexError rest.
+  loco2_ids (n :: rest) = IL_Ok rest.
 Proof.
   intros n rest H L. unfold loco2_ids. cbn [length]. rewrite L. cbn [Nat.eqb negb nthz nth skipn].
-  replace (Z.to_nat n <=? 16)%nat with false by lia. reflexivity.
+  rewrite Nat.min_r by lia. rewrite firstn_all2 by lia. reflexivity.
 Qed.
 
 (* ---------------------------------------------------------------- Poly4D *)
